@@ -208,6 +208,59 @@ CHECKS = {
               "float data; kernels on 4 crystals, dense/sparse, full/compact, no/Wang/Gonze NAC; tolerances 1e-11 relative. "
               "Memory safety is monitored (guard zones, sanitizer build), not proved."),
         design="5/C13 and 11.2"),
+    "C01": dict(
+        text=("DispAlgo/Displacements.tla transcribe phonopy's displacement-direction search; the requirement is stated "
+              "from the definitions (the chosen directions together with all their site-symmetry images have rank 3; -d "
+              "accompanies d exactly when no site operation sends d to -d). TLC checks it on every subgroup of O_h and "
+              "D_6h in up to ten integer bases for all options; the real get_least_displacements is driven on every "
+              "enumerated group, on the site symmetries of real Symmetry objects and on the crystals of the repository's "
+              "tests, and TLC evaluates the requirement on the recorded outputs and checks they are the machine's "
+              "(DisplacementsTrace). FiniteDifference.tla models a whole session in exact integer arithmetic on reference "
+              "crystals that are harmonic and obey permutation, translational and space-group invariance (each a TLC "
+              "invariant on the reference; pair springs plus three-body angle terms so that 3x3 blocks are non-symmetric): "
+              "supercell space group as permutations, orbits, the solver's over-determined linear system over "
+              "site-symmetry images, distribution by rotations and by translations, both layouts, with FCExact as the "
+              "invariant. Real Phonopy sessions are fed forces F = -Phi u computed from that reference over plus/minus "
+              "auto/on/off, diagonal on/off, with/without symmetry, full/compact, three distances, non-diagonal supercells, "
+              "F/I primitive matrices, interleaved species; each produced array is projected to integers and compared by "
+              "TLC with the reference (FiniteDifferenceTrace)."),
+        note=("Trusted: TLC; spglib (its operations are compared with the specification's brute-force space group; a "
+              "mismatch is specification drift); numpy for F = -Phi u and the projection (tolerance 1e-6 on integers, "
+              "observed 2e-10). Bounded: 9 catalogue structures x 31 supercell matrices, <= 64 atoms; subgroups of O_h / "
+              "D_6h in 10 bases. symfc/ALM, random-displacement datasets and magnetic cells are not covered."),
+        design="5/C01 and 11.2"),
+    "C02": dict(
+        text=("DynMat.tla states the lattice Fourier sum of the infinite spring-model crystal (from Springs!AllTerms) and "
+              "transcribes as a step machine (SetFC, SetMasses, MapElements, BuildRaw, MakeHermitian) the sum phonopy's "
+              "kernels evaluate over supercell atoms with phases averaged over the stored shortest vectors; both are formal "
+              "Fourier series with exact integer coefficient matrices. For each case (crystal, supercell matrix, primitive "
+              "matrix, layout) TLC decides that at every commensurate q, for any interaction range, the two series have "
+              "equal coefficients folded per class modulo the supercell lattice and equal values in the group ring Z[zeta_N]; "
+              "and that in the short-range regime they are identical series (equal at every q). On tables recorded from "
+              "real sessions (dense and sparse) TLC checks that every svecs set is exactly the set of all minimal-length "
+              "images, congruent modulo the supercell lattice, with the stored multiplicity, and that p2s/s2p and masses are "
+              "the ones the definitions give. The series TLC publishes is replayed on the compiled batch solver, compiled "
+              "single-q DynamicalMatrix.run and the Python reference: full and compact arrays, dense and sparse svecs, all "
+              "commensurate q, zone-boundary / generic / out-of-zone q, to 1e-10; frequencies and the unit factor too."),
+        note=("Trusted: TLC, numpy exp/eigvalsh, projection of positions and svecs to integers (residual checked). Bounds: "
+              "nine catalogue crystals (cubic, hexagonal, tetragonal, triclinic; F/I centring), 20 (quick) / 61 (thorough) "
+              "supercell geometries up to 128 atoms incl. non-diagonal; equality at non-commensurate q is numerical."),
+        design="5/C02 and 11.2"),
+    "C03": dict(
+        text=("On the DynMat.tla machine TLC decides, for any force constants including non-symmetric integer arrays "
+              "generated by the specification: Hermitian, TimeReversal in the group ring, GPeriodic (every support vector of "
+              "block jj' is congruent to tau_j' - tau_j modulo the primitive lattice); for spring-model force constants: "
+              "acoustic sum rule (with a vacuity guard), space-group covariance of the definition series under all of Aut "
+              "and of the implementation series under the operations preserving the supercell lattice; and Scaling "
+              "(fc -> s fc, m -> t m, with the masses setter's propagation to supercell and unit cell checked on logged "
+              "values). Replay on the three kernels: D matches the series to 1e-10 for arbitrary arrays; Hermitian residual "
+              "and D(-q) vs conj D(q) exactly 0; q+G phase relation and spectra at q+G and Rq to 1e-9 with R from "
+              "primitive_symmetry.reciprocal_operations set-compared with the specification's reciprocal group; three zero "
+              "eigenvalues at Gamma; scaling through Phonopy.masses and force_constants in both orders."),
+        note=("Point-group invariance is claimed only for operations that preserve the supercell lattice (all operations in "
+              "the short-range regime). Arbitrary arrays have entries -2..2 from a seeded generator (exhaustive enumeration "
+              "infeasible). Same trusted base as C02."),
+        design="5/C03 and 11.2"),
 }
 
 NOT_BUILT = "check under construction in this round; not yet claimed"
